@@ -36,7 +36,9 @@ Inductive kernel_fx :=
 | FxSetProcess
 | FxRemoveResumeFromTarget
 | FxResumeProcess
-| FxNewInterruption.
+| FxNewInterruption
+| FxRaiseStopValue
+| FxRaiseEventValue.
 
 (* Environment.schedule  (def schedule(self, event: Event, priority: EventPriority=NORMAL, delay: SimTime=0) -> None:) *)
 Definition gen_Environment_schedule (now : Q) (delay : Q) (priority : Z)
@@ -117,3 +119,10 @@ Definition gen_Interruption_interrupt (process_triggered : bool)
 Definition gen_Process_interrupt
   : list kernel_fx :=
   [FxNewInterruption].
+
+(* StopSimulation.callback  (@classmethod) *)
+Definition gen_StopSimulation_callback (ok : bool)
+  : list kernel_fx :=
+  (if ok
+   then [FxRaiseStopValue]
+   else [FxRaiseEventValue]).
